@@ -78,3 +78,34 @@ package configs
 //@   at[rootprefix] call strings.Index#1: assert arg0 == path && arg1 == RootQueue
 //@   at[rootidx] call strings.Index#1 after: assume ret == rootat(arg0)
 //@   loop 1: each rootat(path) == 0 ==> len(paths) == iter(len(paths)) + 1
+
+// max-applications limits of users and groups: a queue is only accepted (the walk only continues) when its limit for a
+// name respects the limit in force for the same name - or, failing that, for the wild card - on the ancestors; the
+// limit in force handed to the children for that name is the queue's own limit; names inherited from the ancestors are
+// never dropped; every child is checked against the maps of this level
+//@ func checkLimitMaxApplications(cur QueueConfig, parentUserLimits, parentGroupLimits map[string]uint64) (err error)
+//@   props C15
+//@   sweep
+//@   mode nopanic=off
+//@   loop 1: invariant curUserLimits != nil
+//@   loop 1: invariant forall u string :: seen(u) ==> (u in curUserLimits) && curUserLimits[u] == parentUserLimits[u]
+//@   loop 2: invariant curGroupLimits != nil
+//@   loop 2: invariant forall u string :: (u in parentUserLimits) ==> (u in curUserLimits)
+//@   loop 2: invariant forall g string :: seen(g) ==> (g in curGroupLimits) && curGroupLimits[g] == parentGroupLimits[g]
+//@   loop 3: invariant forall u string :: (u in parentUserLimits) ==> (u in curUserLimits)
+//@   loop 3: invariant forall g string :: (g in parentGroupLimits) ==> (g in curGroupLimits)
+//@   loop 4: invariant forall u string :: (u in parentUserLimits) ==> (u in curUserLimits)
+//@   loop 4: invariant forall g string :: (g in parentGroupLimits) ==> (g in curGroupLimits)
+//@   loop 5: invariant forall u string :: (u in parentUserLimits) ==> (u in curUserLimits)
+//@   loop 5: invariant forall g string :: (g in parentGroupLimits) ==> (g in curGroupLimits)
+//@   loop 6: invariant ncalls(configs.checkLimitMaxApplications) >= 0
+//@   loop 6: invariant ncalls(configs.checkLimitMaxApplications) == 0 ==> (forall u string :: (u in parentUserLimits) ==> (u in curUserLimits))
+//@   loop 6: invariant ncalls(configs.checkLimitMaxApplications) == 0 ==> (forall g string :: (g in parentGroupLimits) ==> (g in curGroupLimits))
+//@   loop 4: each (user in curUserLimits) && curUserLimits[user] == limitMaxApplications
+//@   loop 4: each (user in parentUserLimits) && parentUserLimits[user] != 0 ==> limitMaxApplications != 0 && limitMaxApplications <= parentUserLimits[user]
+//@   loop 4: each !(user in parentUserLimits) && user != "*" && ("*" in parentUserLimits) && parentUserLimits["*"] != 0 ==> limitMaxApplications != 0 && limitMaxApplications <= parentUserLimits["*"]
+//@   loop 5: each (group in curGroupLimits) && curGroupLimits[group] == limitMaxApplications
+//@   loop 5: each (group in parentGroupLimits) && parentGroupLimits[group] != 0 ==> limitMaxApplications != 0 && limitMaxApplications <= parentGroupLimits[group]
+//@   loop 5: each !(group in parentGroupLimits) && group != "*" && ("*" in parentGroupLimits) && parentGroupLimits["*"] != 0 ==> limitMaxApplications != 0 && limitMaxApplications <= parentGroupLimits["*"]
+//@   loop 6: each ncalls(configs.checkLimitMaxApplications) == iter(ncalls(configs.checkLimitMaxApplications)) + 1
+//@   at[down] call configs.checkLimitMaxApplications#1: assert arg1 == curUserLimits && arg2 == curGroupLimits
